@@ -131,6 +131,24 @@ def parse_sweep(tier, seed=0):
                 msg = f"natural_sort_key({k!r}) raised {type(e).__name__}: {e}"
         if msg and len(fails) < 16:
             fails.append(rtc.Failure("key_split", {"key": repr(k)}, "ensures", "C18-total-with-documented-shape", msg))
+    # the documented shape of key_split on ordinary task names: dash-separated words followed by an optional numeric /
+    # hash token -> the words, whether or not the token is there (so the function is idempotent on its own results),
+    # for str, bytes and (name, index) tuple keys alike
+    words = ["hello", "world", "from", "delayed", "getitem", "read", "parquet", "x", "sum", "aggregate"]
+    names = [w for w in words] + [f"{a_}-{b_}" for a_ in words[:6] for b_ in words[:6]] + ["getitem-from-delayed", "read-parquet-sum", "a-b-c"]
+    for nm in names:
+        for tokn in ("", "-1", "-12", "-1-2-3", "-abcdefab", "-7-abcdefab"):
+            for form in ("str", "bytes", "tuple", "nested"):
+                cases += 1
+                full = nm + tokn
+                key = full if form == "str" else full.encode() if form == "bytes" else (full, 3) if form == "tuple" else ((full, 0), 1)
+                try:
+                    got = key_split(key)
+                    msg = None if got == nm else f"key_split({key!r}) = {got!r}, the name part is {nm!r}"
+                except Exception as e:  # noqa
+                    msg = f"key_split({key!r}) raised {type(e).__name__}: {e}"
+                if msg and len(fails) < 16:
+                    fails.append(rtc.Failure("key_split", {"key": repr(key)}, "ensures", "C18-total-with-documented-shape", msg))
     # a unit given through default= (unit-less string or number): any letter case, like a unit written in the string
     for u, mult in TIME_UNITS.items():
         for cu in casings(u):
